@@ -335,6 +335,13 @@ func ModelErrClass(err error) string {
 // MapSweep observes the registered set through rd: Len, Has/Route for every (method, pool pattern), and the
 // iterators All, Methods, Prefix, Routes. The result is a canonical list of lines.
 func MapSweep(rd Reader, methods []string, pool []*model.Pattern, prefixes []string) []string {
+	return MapSweepOpt(rd, methods, pool, prefixes, true)
+}
+
+// MapSweepOpt is MapSweep with the iterator part optional: Txn.Iter() on a write transaction takes a snapshot, which
+// resets the transaction's copy-on-write cache, so sweeping an open write transaction with iterators after every
+// operation would keep that cache from ever surviving between two operations.
+func MapSweepOpt(rd Reader, methods []string, pool []*model.Pattern, prefixes []string, iter bool) []string {
 	var out []string
 	out = append(out, fmt.Sprintf("len %d", rd.Len()))
 	for _, m := range methods {
@@ -350,8 +357,10 @@ func MapSweep(rd Reader, methods []string, pool []*model.Pattern, prefixes []str
 			}
 		}
 	}
-	it := rd.Iter()
-	out = append(out, IterSweep(it, methods, pool, prefixes)...)
+	if iter {
+		it := rd.Iter()
+		out = append(out, IterSweep(it, methods, pool, prefixes)...)
+	}
 	return out
 }
 
@@ -403,6 +412,11 @@ func seqOf(xs []string) func(func(string) bool) {
 
 // ModelMapSweep renders the same observations from the model set.
 func ModelMapSweep(s *model.Set, methods []string, pool []*model.Pattern, prefixes []string) []string {
+	return ModelMapSweepOpt(s, methods, pool, prefixes, true)
+}
+
+// ModelMapSweepOpt mirrors MapSweepOpt.
+func ModelMapSweepOpt(s *model.Set, methods []string, pool []*model.Pattern, prefixes []string, iter bool) []string {
 	var out []string
 	out = append(out, fmt.Sprintf("len %d", s.Len()))
 	for _, m := range methods {
@@ -412,7 +426,9 @@ func ModelMapSweep(s *model.Set, methods []string, pool []*model.Pattern, prefix
 			}
 		}
 	}
-	out = append(out, ModelIterSweep(s, methods, pool, prefixes)...)
+	if iter {
+		out = append(out, ModelIterSweep(s, methods, pool, prefixes)...)
+	}
 	return out
 }
 
